@@ -118,3 +118,30 @@
         assert!(failures.is_empty());
     }
 
+
+    /// the over-long exit: the contract of resolve_edits says the edit list is empty afterwards on EVERY path (C03/C10: a
+    /// refused input must leave nothing behind that the next input on the same buffer would see)
+    #[test]
+    fn verif_oracle_overlong_exit_drains() {
+        let big = "x".repeat(70000);
+        let mut failures = Vec::new();
+        for source in ["", "a", "aé漢", "abcdef"] {
+            let bs = boundaries(source);
+            for (i, &a) in bs.iter().enumerate() { for &b in &bs[i..] {
+                for tail in [false, true] {
+                    let id: Vec<usize> = (0..=source.len()).collect();
+                    let mut ops = vec![ReplaceOp { what: a..b, with: ReplaceTgt::Ref(&big) }];
+                    if tail && b < source.len() { ops.push(ReplaceOp { what: b..source.len(), with: ReplaceTgt::Char('y') }); }
+                    let nops = ops.len();
+                    let mut t = String::new();
+                    let mut m: Vec<usize> = Vec::new();
+                    let r = resolve_edits(source, &id, &mut t, &mut m, &mut ops);
+                    if r <= 65535 { failures.push(format!("source={:?} edit {}..{} with 70000 bytes: returned {} (not over the limit)", source, a, b, r)); }
+                    if !ops.is_empty() { failures.push(format!("source={:?} {} edit(s), first {}..{} replaced by 70000 bytes: resolve_edits returned {} and left {} edit(s) in the list", source, nops, a, b, r, ops.len())); }
+                }
+            }}
+        }
+        println!("verif_oracle_overlong_exit_drains: {} failures", failures.len());
+        for f in failures.iter().take(5) { println!("FAILING INPUT: {}", f); }
+        assert!(failures.is_empty());
+    }
